@@ -23,6 +23,10 @@ for p in props:
     mod = importlib.import_module("harness." + pid.lower())
     m = getattr(mod, "MANIFEST", {})
     shapes = sorted({h.shape for h in mod.HARNESSES})
+    claims = json.load(open(os.path.join(ROOT, "tools", "claims.json")))
+    outside = sorted({o for h in mod.HARNESSES for o in h.outside})
+    default_note = ("Trusted: CrossHair 0.0.110's interpreter model of CPython, z3, the harness oracle / reference model; floats that depend on "
+                    "symbolic values are modelled as reals; stubs listed in the evidence file.")
     checks.append({
         "property_id": pid,
         "quick_cmd": f"./check {pid} --tier quick",
@@ -32,10 +36,10 @@ for p in props:
         "engine": "chx",
         "level_claimed": {
             "category": "model_checking",
-            "text": m.get("text", "bounded symbolic model checking of the implementation: every feasible path of the real code within the stated bounds is executed symbolically (CrossHair), branch feasibility decided by z3; counterexamples replayed on plain CPython"),
+            "text": m.get("text", "bounded symbolic model checking of the implementation (every feasible path of the real code within the stated bounds executed symbolically, branch feasibility decided by z3, counterexamples replayed on plain CPython). " + claims.get(pid, "")),
             "design_ref": m.get("design_ref", f"DESIGN.md §5 {pid}"),
         },
-        "level_note": m.get("note", ""),
+        "level_note": (m.get("note") or default_note) + (" OUTSIDE THE CLAIM: " + "; ".join(outside) if outside else ""),
         "technique": m.get("technique", "symbolic execution of the real Python code (CrossHair 0.0.110 + z3), exhaustive over paths within stated bounds; harness shapes: " + ",".join(shapes)),
     })
 manifest = {
